@@ -194,6 +194,23 @@ def fq(x, quantum):
     return int(round(float(x) / quantum))
 
 
+CLIPQ = 1 << 27
+
+
+def flow_event(kind, flows, quantum, **kw):
+    """DIter / DEnd event: flows in quanta; an iterate far outside the scale
+    (the fixed-point loop may pass through flows thousands of times the
+    total, of either sign) is clipped to +-2^27 quanta and marked, and the
+    sum of the exact flows is carried separately."""
+    qs = [fq(x, quantum) for x in flows]
+    wild = int(any(abs(v) > CLIPQ for v in qs))
+    tot = fq(float(np.sum(flows)), quantum) if len(flows) else 0
+    ev = {'e': kind, 'm': [max(-CLIPQ, min(CLIPQ, v)) for v in qs],
+          'sum': max(-(1 << 30), min(1 << 30, tot)), 'wild': wild}
+    ev.update(kw)
+    return ev
+
+
 def distribute_events(ob, orf, spec, types, tabs, mt_expected, res_prev=None,
                       t_out_prev=None):
     n = len(types)
@@ -211,15 +228,15 @@ def distribute_events(ob, orf, spec, types, tabs, mt_expected, res_prev=None,
         m, t_est = orf.distribute(res_prev, t_out_prev)
     except SystemExit:
         for it in ob.iters[:30]:
-            ev.append({'e': 'DIter', 'm': [fq(x, quantum) for x in it]})
-        ev.append({'e': 'DEnd', 'out': 'error', 'm': []})
+            ev.append(flow_event('DIter', it, quantum))
+        ev.append(flow_event('DEnd', [], quantum, out='error'))
         return ev, None
     its = ob.iters
     if res_prev is not None and its:
         pass
     for it in its[-30:]:
-        ev.append({'e': 'DIter', 'm': [fq(x, quantum) for x in it]})
-    ev.append({'e': 'DEnd', 'out': 'ok', 'm': [fq(x, quantum) for x in m]})
+        ev.append(flow_event('DIter', it, quantum))
+    ev.append(flow_event('DEnd', m, quantum, out='ok'))
     return ev, np.array(m, float)
 
 
